@@ -154,6 +154,9 @@ def _(c):
     c.ensures('self.current_connection is old(self.current_connection)', 'selection_kept')
     # "what is recorded" (all_messages and every message_list) is not in the modifies clause: the frame obligations carry it
     c.ensures('len(ui_trace()) == old(len(ui_trace()))', 'no_ui_request')
+    # which matcher the listing uses (the given one alone, never joined with the filter) is fixed by a native-only clause: bounded stand-in
+    c.ensures('old(listing_expected(self, arg)) is None or tuple(shown()[old(len(shown())):]) == old(listing_expected(self, arg))',
+              'lists_the_matches_of_the_given_matcher_alone', native_only=True)
     c.modifies('self.last_shown_timestamp', 'trace', 'new', *_MATCHER_FIELDS)
     c.native_gen(_gen_cmd(['', '~', '~ 2', '~2', 'wl_surface ~ 1', '.commit~0', '~ x', '* ~ 3', 'wl_* ! wl_callback', '((', 'a~b~c', '5 ~ 100']))
 
